@@ -172,11 +172,14 @@ def crosscheck_function(rep, con, n_inputs, seed):
         return out
     rng = random.Random(seed)
     hit = set()
+    # cases whose exploration stopped at an unsupported construct have an incomplete path set: "no feasible path" would be
+    # meaningless for them
+    incomplete = {u[1:u.index(']')] for u in rep.undecided if u.startswith('[') and ']' in u}
     for label, overrides in con.cases:
         specs = dict(con.params)
         specs.update(overrides)
         sums = [s for s in rep.summaries if s.case == label and s.outcome[0] != 'cut']
-        if not sums:
+        if not sums or label in incomplete:
             continue
         per_case = max(1, n_inputs // len(con.cases))
         for _ in range(per_case):
